@@ -154,31 +154,36 @@ Definition lookup (w : world) (s d q : nat) : option nat :=
   | None => None
   end.
 
-(* removeAndCloseStmtFunc over the DB ids [ds_] *)
+(* one cached driverStmt is closed and unlinked from both maps *)
+Definition release (w : world) (s d ds : nat) : world :=
+  let w1 := close_ds w ds in
+  with_maps w1 (upd2 (w_cache w1) s d None) (w_sentry w1) (upd2 (w_index w1) d s false) (w_dentry w1).
+
+(* removeAndCloseStmtFunc, over the DB ids.  The Go code closes every entry of
+   stmtDBCache[s], unlinks s from dbStmtCache[d] in the same iteration and
+   deletes stmtDBCache[s] as a whole after the loop; the model also removes
+   the stmtDBCache entry in the iteration.  The whole function runs under the
+   write lock, so the intermediate states are not observable and the state
+   after the function is the same. *)
 Fixpoint gc_stmt_loop (w : world) (s : nat) (dbs : list nat) : world :=
   match dbs with
   | [] => w
   | d :: rest =>
       match w_cache w s d with
-      | Some ds =>
-          let w1 := close_ds w ds in
-          gc_stmt_loop (with_maps w1 (w_cache w1) (w_sentry w1) (upd2 (w_index w1) d s false) (w_dentry w1))
-                       s rest
+      | Some ds => gc_stmt_loop (release w s d ds) s rest
       | None => gc_stmt_loop w s rest
       end
   end.
 
-(* removeAndCloseDBFunc over the Statement ids *)
+(* removeAndCloseDBFunc, over the Statement ids (same remark: the Go code
+   deletes dbStmtCache[d] as a whole after the loop) *)
 Fixpoint gc_db_loop (w : world) (d : nat) (stmts : list nat) : world :=
   match stmts with
   | [] => w
   | s :: rest =>
       if w_index w d s then
         match w_cache w s d with
-        | Some ds =>
-            let w1 := close_ds w ds in
-            gc_db_loop (with_maps w1 (upd2 (w_cache w1) s d None) (w_sentry w1) (w_index w1) (w_dentry w1))
-                       d rest
+        | Some ds => gc_db_loop (release w s d ds) d rest
         | None => gc_db_loop (with_log w (EvPanic 2)) d rest
         end
       else gc_db_loop w d rest
